@@ -345,13 +345,17 @@ void _vnacal_teardown_parameter_collection(vnacal_t *vcp)
     for (int i = vprmcp->vprmc_allocation - 1; i >= 0; --i) {
 	vnacal_parameter_t *vpmrp = vprmcp->vprmc_vector[i];
 
-	if (vpmrp != NULL) {
-	    assert(!vpmrp->vpmr_deleted);
+	/*
+	 * Parameters already deleted by the user are still in the table
+	 * only because another parameter refers to them; they're freed
+	 * when the referring parameter is released.
+	 */
+	if (vpmrp != NULL && !vpmrp->vpmr_deleted) {
 	    vpmrp->vpmr_deleted = true;
 	    _vnacal_release_parameter(vpmrp);
-	    assert(vprmcp->vprmc_vector[i] == NULL);
 	}
     }
+    assert(vprmcp->vprmc_count == 0);
     free((void *)vprmcp->vprmc_vector);
     (void)memset((void *)&vcp->vc_parameter_collection, 0,
 	    sizeof(vcp->vc_parameter_collection));
